@@ -37,6 +37,15 @@ type coop struct {
 	points   map[string]int
 	active   bool
 	onResume func(id int) // called in the resumed worker before it continues
+	// mode 1 (priority schedule, after Burckhardt et al.'s PCT): every worker has a
+	// priority, the runnable worker with the highest one runs; at each change point
+	// (a tick number) the worker that is running drops below everybody else.  This
+	// reaches orderings a per-yield random walk practically never produces: one
+	// worker parked at a precise yield point while another runs many operations.
+	mode    int
+	prio    []int
+	changes map[int]int
+	changesHit int
 }
 
 // Yield is called (through MemFile.Yield, gkvlite's VerifYield and visitor
@@ -55,6 +64,32 @@ func (s *coop) Yield(point string) {
 }
 
 func (s *coop) pick(runnable []int, current int) int {
+	if s.mode == 1 {
+		if s.prio == nil {
+			s.prio = make([]int, 8)
+			s.changes = map[int]int{}
+			for i := range s.prio {
+				s.prio[i] = 1000 - i
+				if i < len(s.sched) {
+					s.prio[i] = 1000 + 8*(s.sched[i]%100) - i
+				}
+			}
+			for i := 6; i < len(s.sched); i++ {
+				s.changes[s.sched[i]] = -(i - 5)
+			}
+		}
+		if np, ok := s.changes[s.tick]; ok && current >= 0 && current < len(s.prio) {
+			s.prio[current] = np
+			s.changesHit++
+		}
+		best := runnable[0]
+		for _, r := range runnable {
+			if s.prio[r] > s.prio[best] {
+				best = r
+			}
+		}
+		return best
+	}
 	if s.pos < len(s.sched) {
 		i := s.sched[s.pos] % len(runnable)
 		s.pos++
@@ -272,7 +307,7 @@ func concurrentPhase(w *World, c Case) (viol *Violation) {
 	if par && len(c.Cfg.Extra) > 0 && c.Cfg.Extra[0] > 1 {
 		rep = c.Cfg.Extra[0]
 	}
-	s := &coop{sched: c.Cfg.Sched}
+	s := &coop{sched: c.Cfg.Sched, mode: c.Cfg.SchedMode}
 	var clock int64
 	var mu sync.Mutex
 	now := func() int {
@@ -581,6 +616,10 @@ func concurrentPhase(w *World, c Case) (viol *Violation) {
 		s.run(workers)
 	}
 	w.ev["sched_switches"] = s.switches
+	if s.mode == 1 {
+		w.ev["sched_priority_mode"] = 1
+		w.ev["sched_change_points_hit"] = s.changesHit
+	}
 	w.ev["sched_yields"] = s.tick
 	for p, n := range s.points {
 		w.ev["yield_"+p] = n
